@@ -586,6 +586,97 @@ def rule_direct_solver(rep: Report, repo: Repo):
     rule_direct_wiring(rep, repo)
 
 
+def _rule_pivot_choice(rep: Report, repo: Repo, R: str):
+    """Replacing the equations of rows p_1..p_k by x[p] = 0 fixes the gauge only if the k x k submatrix of the kernel vectors on
+    those rows is invertible.  The shipped choice -- the first k column pivots of a pivoted QR factorisation of K^T -- guarantees
+    that; a choice made row by row (the rows of largest norm, ...) does not: such rows can be parallel."""
+    from .e9 import _import_origin
+    from .resolve import resolved as _res
+    from .sem import Scope as _Scope, canon as _canon, outcomes as _outcomes
+    f = repo.find("linalg::_kernel_pivot_rows", R)
+    where = repo.loc("linalg", f)
+    if len(f.args.args) != 1:
+        raise AnalysisError(R, "_kernel_pivot_rows: expected one parameter (the kernel vectors)")
+    KV = f.args.args[0].arg
+    K = f"{KV}.shape[1]"
+    verdicts = []
+    from .e2c import _const_eval
+    from .paths import eval_bool
+    n_alias = {K}
+    for st in f.body:  # `n = kernel_vectors.shape[1]`
+        if isinstance(st, ast.Assign) and isinstance(st.targets[0], ast.Name) and norm(st.value) == K:
+            n_alias.add(st.targets[0].id)
+    for kval in (0, 1, 2, 3):
+        empty = kval == 0
+
+        def atom(n, kval=kval):
+            t = _canon(n)
+            if norm(t) in n_alias:
+                return kval != 0
+            if norm(t) == f"{KV}.size == 0":
+                return kval == 0
+            return _const_eval(t, {k_: kval for k_ in n_alias})
+        for o in _outcomes(f.body, _Scope(repo.trees["linalg"], f), env={}, atom=atom, expand=False):
+            if o.kind != "return" or o.value is None:
+                raise AnalysisError(R, "_kernel_pivot_rows: path without a returned value")
+            undecided = [norm(t)[:50] for t, _p in o.conds if eval_bool(t, atom) is None]
+            if undecided:
+                raise AnalysisError(R, f"_kernel_pivot_rows: condition `{undecided[0]}` not understood")
+            v = o.value
+            if empty:
+                ok = norm(v) in ("np.array([], dtype=int)", "np.empty(0, dtype=int)", "np.zeros(0, dtype=int)", "np.arange(0)")
+                if not ok:
+                    # the general expression is fine for an empty kernel too if it is the understood QR form
+                    pass
+                else:
+                    verdicts.append(("empty", True, norm(v)))
+                    continue
+            if isinstance(v, ast.Call) and call_name(v) == "np.sort" and len(v.args) == 1:
+                v = v.args[0]
+            if kval == 1:
+                # one kernel vector: any row on which it does not vanish will do; the row of largest MAGNITUDE is safe, the row of
+                # the largest component is not (a vector with no sizable positive component)
+                inner = v
+                if isinstance(inner, ast.Call) and call_name(inner) in ("np.array", "np.asarray") and inner.args and isinstance(inner.args[0], (ast.List, ast.Tuple)) \
+                        and len(inner.args[0].elts) == 1:
+                    inner = inner.args[0].elts[0]
+                if isinstance(inner, ast.Call) and call_name(inner) in ("np.argmax", "np.argmin") and len(inner.args) == 1:
+                    a0 = inner.args[0]
+                    has_abs = isinstance(a0, ast.Call) and call_name(a0) in ("np.abs", "abs", "np.absolute") and len(a0.args) == 1
+                    vec = a0.args[0] if has_abs else a0
+                    if norm(vec) not in (f"{KV}[:, 0]", f"{KV}.ravel()", f"{KV}.flatten()", f"{KV}[:, 0].ravel()", f"{KV}.reshape(-1)"):
+                        raise AnalysisError(R, f"_kernel_pivot_rows: single-vector pivot `{norm(o.value)[:80]}` not understood")
+                    ok1 = has_abs and call_name(inner) == "np.argmax"
+                    verdicts.append(("single", ok1, f"k = 1: `{norm(inner)[:70]}`" + ("" if ok1 else
+                                     ": the row of the largest (smallest) component, not of the largest magnitude; that component can vanish")))
+                    continue
+            if not (isinstance(v, ast.Subscript) and isinstance(v.slice, ast.Slice) and v.slice.lower is None and v.slice.step is None
+                    and v.slice.upper is not None and norm(v.slice.upper) in n_alias):
+                if isinstance(v, ast.Subscript) and isinstance(v.slice, ast.Slice) and v.slice.upper is None and v.slice.lower is not None \
+                        and norm(v.slice.lower) in {f"-{a_}" for a_ in n_alias}:
+                    pass  # the last k of a ranking
+                else:
+                    raise AnalysisError(R, f"_kernel_pivot_rows: selection `{norm(o.value)[:90]}` is not `<ranking>[:k]` with k = number of kernel vectors")
+            src = v.value
+            if isinstance(src, ast.Subscript) and norm(src.slice) == "2" and isinstance(src.value, ast.Call) and call_name(src.value) in ("qr", "scipy.linalg.qr", "linalg.qr"):
+                q = src.value
+                kw = {k_.arg: norm(k_.value) for k_ in q.keywords}
+                arg = norm(_canon(q.args[0])) if q.args else ""
+                origin = _import_origin(repo.trees["linalg"], "qr") if call_name(q) == "qr" else ("scipy.linalg", "qr")
+                ok = kw.get("pivoting") == "True" and arg in (f"{KV}.T", f"{KV}.conj().T") and origin == ("scipy.linalg", "qr") \
+                    and isinstance(v.slice, ast.Slice) and v.slice.lower is None
+                verdicts.append(("qr", ok, f"qr({arg}, {kw})[2][:{K}]" + ("" if origin == ("scipy.linalg", "qr") else f" with qr from {origin}")))
+            elif isinstance(src, ast.Call) and call_name(src) in ("np.argsort", "np.argpartition") and src.args \
+                    and any((isinstance(n_, ast.keyword) and n_.arg == "axis" and norm(n_.value) == "1") for n_ in ast.walk(src.args[0])) \
+                    and any(isinstance(n_, ast.Name) and n_.id == KV for n_ in ast.walk(src.args[0])):
+                verdicts.append(("score", False, f"rows ranked one by one by `{norm(src.args[0])[:60]}`: the chosen rows of the kernel can be linearly dependent"))
+            else:
+                raise AnalysisError(R, f"_kernel_pivot_rows: ranking `{norm(src)[:90]}` is neither a pivoted QR of K^T nor a per-row score")
+    bad = [d for _k, ok, d in verdicts if not ok]
+    rep.check(bool(verdicts) and not bad, R, "linalg::_kernel_pivot_rows the pivot rows carry an invertible k x k submatrix of the kernel (first k column pivots of a pivoted QR of K^T; for k = 1 the row of largest magnitude)",
+              "; ".join(bad) if bad else "; ".join(d for _k, _ok, d in verdicts), where)
+
+
 def rule_greens_function(rep: Report, repo: Repo):
     R = "E7.greens"
     outer = repo.find("linalg::direct_greens_function", R)
@@ -719,6 +810,7 @@ def rule_greens_function(rep: Report, repo: Repo):
     pv = [n for n in own_nodes(outer) if isinstance(n, ast.Assign) and norm(n.targets[0]) == "pivot_rows"]
     ok = len(pv) == 1 and norm(pv[0].value) == "_kernel_pivot_rows(kernel_vectors)"
     rep.check(ok, R, "linalg::direct_greens_function pivots are chosen from the right kernel vectors", "", loc(outer))
+    _rule_pivot_choice(rep, repo, R)
     cm = repo.find("linalg::_constrain_matrix", R)
     from .resolve import env_at as _env_at, rtext as _rtext
     from .sem import canon as _canon2
@@ -741,8 +833,25 @@ def rule_greens_function(rep: Report, repo: Repo):
     KEEP = f"~{M}[{COO}.row]" if marks_pivots else f"{M}[{COO}.row]"  # rows that are NOT pivots
     want_ret = (f"sparse.csr_array((np.concatenate(({COO}.data[{KEEP}], np.ones(len(pivot_rows), dtype={C}.dtype))), "
                 f"(np.concatenate(({COO}.row[{KEEP}], pivot_rows)), np.concatenate(({COO}.col[{KEEP}], pivot_rows)))), shape={C}.shape)")
-    got_ret = _rtext(nonempty[0].value, _env_at(nonempty[0], cm))
+    from .resolve import resolved as _resolved_cm
+    got_node = _resolved_cm(nonempty[0].value, _env_at(nonempty[0], cm))
+    got_ret = norm(got_node)
     got_cmp = got_ret.replace(".tocoo()", ".tocoo(copy=False)")
+    if got_cmp != want_ret:
+        # a different text is a violation only inside the assembly skeleton  csr((cat(kept data, ones), (cat(kept rows, pivots),
+        # cat(kept cols, pivots))), shape): another way of building the matrix is not understood, not wrong
+        def cat(e):
+            if isinstance(e, ast.Call) and call_name(e) in ("np.concatenate", "np.hstack", "np.append", "np.r_") and e.args:
+                parts = e.args[0].elts if len(e.args) == 1 and isinstance(e.args[0], (ast.Tuple, ast.List)) else e.args
+                return list(parts) if len(parts) == 2 else None
+            return None
+        sk = None
+        if isinstance(got_node, ast.Call) and call_name(got_node) in ("sparse.csr_array", "sparse.csr_matrix", "csr_array") and got_node.args \
+                and isinstance(got_node.args[0], ast.Tuple) and len(got_node.args[0].elts) == 2 and isinstance(got_node.args[0].elts[1], ast.Tuple) \
+                and len(got_node.args[0].elts[1].elts) == 2:
+            sk = [cat(got_node.args[0].elts[0]), cat(got_node.args[0].elts[1].elts[0]), cat(got_node.args[0].elts[1].elts[1])]
+        if sk is None or None in sk:
+            raise AnalysisError(R, f"_constrain_matrix: assembly `{got_ret[:120]}` is not of the form csr((cat(data, ones), (cat(rows, pivots), cat(cols, pivots))))")
     rep.check(ok_mask and got_cmp == want_ret, R, "linalg::_constrain_matrix drops the pivot rows and adds unit diagonal entries on them",
               got_ret[:200], repo.loc("linalg", cm))
     ok_early = all(_rtext(r_.value, _env_at(r_, cm)) == C and isinstance(getattr(r_, "_parent", None), ast.If)
